@@ -209,7 +209,17 @@ BadAttr = _bad_class('BadAttr', AttributeError)
 BadRuntime = _bad_class('BadRuntime', RuntimeError)
 BadLookup = _bad_class('BadLookup', LookupError)
 BadRecursion = _bad_class('BadRecursion', RecursionError)
-BAD_BY_KIND = {'value': BadValue, 'type': BadRepr, 'attr': BadAttr, 'runtime': BadRuntime, 'lookuperr': BadLookup,
+class NoPickle(object):
+    """an argument that prints, compares and hashes like any object but cannot be pickled (it 'holds a lock'): unkeyable for
+    the keymaps that serialize (picklemap with a serializer), keyable for the others"""
+    def __reduce_ex__(self, protocol):
+        raise TypeError('cannot pickle NoPickle object')
+
+    def __repr__(self):
+        return 'NoPickle()'
+
+
+BAD_BY_KIND = {'nopickle': NoPickle, 'value': BadValue, 'type': BadRepr, 'attr': BadAttr, 'runtime': BadRuntime, 'lookuperr': BadLookup,
                'recursion': BadRecursion}
 
 
